@@ -386,7 +386,24 @@ def _is_inverse_map(node, alpha_name):
 def _encoder(cx, enc, mod, alpha_name, len_name):
     """Returns 'LSD-first' / 'MSD-first' or None; records R20c obligations."""
     num = params(enc)[0]
+    host = enc
+    gen_helper = None
     loops = [n for n in enc.body if isinstance(n, ast.While)]
+    if not loops:
+        # the digit loop may live in a generator helper:  def _digits(n): while n: n, d = divmod(n, B); yield d
+        cands = []
+        for c_ in walk_local(enc):
+            if isinstance(c_, ast.Call) and isinstance(c_.func, ast.Name):
+                h_ = next((f_ for f_ in mod.tree.body if isinstance(f_, FUNC) and f_.name == c_.func.id), None)
+                if h_ is not None and any(isinstance(x, ast.While) for x in h_.body) and any(isinstance(x, ast.Yield) for x in ast.walk(h_)) \
+                        and len(c_.args) == 1 and is_name(c_.args[0], num):
+                    cands.append((c_, h_))
+        if len(cands) == 1:
+            gen_call, gen_helper = cands[0]
+            host = gen_helper
+            num = params(gen_helper)[0]
+            loops = [n for n in gen_helper.body if isinstance(n, ast.While)]
+            cx.note(f"R20c: the digit loop of the encoder is the generator {gen_helper.name}")
     if len(loops) != 1:
         _variable_groups(cx, enc)
     cx.need(len(loops) == 1, "R20c", enc, "encoder: expected one while loop over the quotient")
@@ -405,7 +422,7 @@ def _encoder(cx, enc, mod, alpha_name, len_name):
             q, r = st.targets[0].elts
             if is_name(q, num) and isinstance(r, ast.Name) and is_name(st.value.args[0], num):
                 digit = r.id
-                qr_ok = _resolve_base(st.value.args[1], enc, mod, alpha_name)
+                qr_ok = _resolve_base(st.value.args[1], host, mod, alpha_name)
                 base_node = st
     if digit is None:
         # digit = num % B ; num //= B   (digit first)
@@ -421,7 +438,7 @@ def _encoder(cx, enc, mod, alpha_name, len_name):
                     and isinstance(st.value.op, ast.FloorDiv) and is_name(st.value.left, num):
                 qi, qb = i, st.value.right
         cx.need(digit is not None and qi is not None, "R20c", enc, "encoder: quotient/remainder idiom (divmod or %,//) not recognised")
-        qr_ok = di < qi and _resolve_base(db, enc, mod, alpha_name) and _resolve_base(qb, enc, mod, alpha_name)
+        qr_ok = di < qi and _resolve_base(db, host, mod, alpha_name) and _resolve_base(qb, host, mod, alpha_name)
     cx.ob("R20c", base_node, qr_ok, "digit = n mod B, n = n div B with B = size of the alphabet" if qr_ok else
           "quotient/remainder use a base different from the alphabet size, or the remainder is taken after the division")
     # emission and padding: the digit string is followed as an abstract sequence value through the function.
@@ -464,18 +481,33 @@ def _encoder(cx, enc, mod, alpha_name, len_name):
                 tgt, where_, sym = c_.func.value.id, "start", c_.args[0]
         if tgt is not None and sym is not None and any(alpha_sym(x) for x in ast.walk(sym)):
             emits.append((st, tgt, where_, sym))
-    cx.need(len(emits) == 1, "R20c", enc, "encoder: exactly one statement emitting a digit expected")
-    st, out, where_, sym = emits[0]
-    order = "LSD-first" if where_ == "end" else "MSD-first"
-    cx.ob("R20c", st, is_digit_sym(sym), f"emits ALPHABET[remainder] ({order})" if is_digit_sym(sym) else f"emitted symbol `{norm(sym)}` is not the alphabet character of the remainder")
-    init = [v for s0, v in assignments(enc, out) if s0 in enc.body and enc.body.index(s0) < enc.body.index(loop)]
-    ok = len(init) == 1 and ((isinstance(init[0], ast.Constant) and init[0].value == "") or (isinstance(init[0], ast.List) and not init[0].elts) or
-                             (isinstance(init[0], ast.Call) and call_name(init[0]) in ("list", "str", "deque") and not init[0].args))
-    cx.ob("R20c", loop, ok, "the digit collector starts empty" if ok else "the digit collector does not start empty", stmt="collector initialisation")
+    raw_seq = None
+    if gen_helper is not None:
+        ys = [y for y in ast.walk(loop) if isinstance(y, ast.Yield)]
+        outside = [y for y in ast.walk(gen_helper) if isinstance(y, (ast.Yield, ast.YieldFrom)) and not any(y is z for z in ast.walk(loop))]
+        cx.need(len(ys) == 1 and not outside and ys[0].value is not None, "R20c", gen_helper, "generator helper: exactly one `yield` inside the digit loop expected")
+        yv = ys[0].value
+        order = "LSD-first"
+        if is_name(yv, digit):
+            raw_seq = [("R", order)]        # numeric digits; mapped to characters by the caller
+            cx.ob("R20c", ys[0], True, "the generator yields the remainders, least significant first")
+        else:
+            cx.ob("R20c", ys[0], is_digit_sym(yv), f"yields ALPHABET[remainder] ({order})" if is_digit_sym(yv) else f"yielded value `{norm(yv)}` is neither the remainder nor its alphabet character")
+            raw_seq = [("D", order)]
+        out = None
+    else:
+        cx.need(len(emits) == 1, "R20c", enc, "encoder: exactly one statement emitting a digit expected")
+        st, out, where_, sym = emits[0]
+        order = "LSD-first" if where_ == "end" else "MSD-first"
+        cx.ob("R20c", st, is_digit_sym(sym), f"emits ALPHABET[remainder] ({order})" if is_digit_sym(sym) else f"emitted symbol `{norm(sym)}` is not the alphabet character of the remainder")
+        init = [v for s0, v in assignments(enc, out) if s0 in enc.body and enc.body.index(s0) < enc.body.index(loop)]
+        ok = len(init) == 1 and ((isinstance(init[0], ast.Constant) and init[0].value == "") or (isinstance(init[0], ast.List) and not init[0].elts) or
+                                 (isinstance(init[0], ast.Call) and call_name(init[0]) in ("list", "str", "deque") and not init[0].args))
+        cx.ob("R20c", loop, ok, "the digit collector starts empty" if ok else "the digit collector does not start empty", stmt="collector initialisation")
 
     class Unknown(Exception):
         pass
-    env = {out: [("D", order)]}
+    env = {out: [("D", order)]} if out is not None else {}
 
     def digits_len(e, at):
         """is `e` (evaluated at `at`) the number of digits emitted?  len(<sequence consisting of the digits only>)"""
@@ -491,6 +523,16 @@ def _encoder(cx, enc, mod, alpha_name, len_name):
         return isinstance(c, ast.BinOp) and isinstance(c.op, ast.Sub) and is_name(c.left, len_name) and digits_len(c.right, at)
 
     def ev(e, at):
+        if gen_helper is not None and isinstance(e, ast.Call) and isinstance(e.func, ast.Name) and e.func.id == gen_helper.name:
+            return list(raw_seq)
+        if isinstance(e, (ast.GeneratorExp, ast.ListComp)) and len(e.generators) == 1 and not e.generators[0].ifs and isinstance(e.generators[0].target, ast.Name):
+            src_ = ev(e.generators[0].iter, at)
+            v_ = e.generators[0].target.id
+            if src_ in ([("R", "LSD-first")], [("R", "MSD-first")]) and isinstance(e.elt, ast.Subscript) and is_name(e.elt.value, alpha_name) and is_name(e.elt.slice, v_):
+                return [("D", src_[0][1])]
+            if norm(e.elt) == v_:
+                return src_
+            raise Unknown(norm(e)[:60])
         if isinstance(e, ast.Name):
             if e.id in env:
                 return env[e.id]
@@ -526,8 +568,8 @@ def _encoder(cx, enc, mod, alpha_name, len_name):
         raise Unknown(norm(e)[:60])
 
     def rev(v):
-        return [(("D", "MSD-first" if p_[1] == "LSD-first" else "LSD-first") if p_[0] == "D" else p_) for p_ in reversed(v)]
-    after = enc.body[enc.body.index(loop) + 1:]
+        return [((p_[0], "MSD-first" if p_[1] == "LSD-first" else "LSD-first") if p_[0] in ("D", "R") else p_) for p_ in reversed(v)]
+    after = enc.body[enc.body.index(loop) + 1:] if gen_helper is None else list(enc.body)
     result = None
     ret_node = None
     try:
